@@ -223,7 +223,7 @@ def wrap_global(value):
     # own body is what is executed and what its contract describes
     inner = getattr(value, "__wrapped__", None)
     if inner is not None and hasattr(value, "cache_info") and isinstance(inner, pytypes.FunctionType):
-        value = inner
+        value = inner if memo_is_transparent(inner) else _OpaqueMemo(inner)
     if isinstance(value, pytypes.FunctionType) and _is_repo_module(value.__module__):
         return RepoFn(_relpath_of_module(value.__module__), value.__qualname__, value)
     if isinstance(value, type) and _is_repo_module(value.__module__):
@@ -235,6 +235,33 @@ def wrap_global(value):
     if isinstance(value, pytypes.ModuleType) and value.__name__ in _MODULE_PROXIES:
         return _MODULE_PROXIES[value.__name__](value)
     return value
+
+
+def memo_is_transparent(fn) -> bool:
+    """A memoised function returns, for arguments that compare equal to earlier ones, the earlier result.  That is
+    the function's own result only if equal arguments are indistinguishable: str and bytes parameters.  An object
+    whose == leaves fields out (attrs eq=False), or 1 == True == 1.0, is not."""
+    import inspect
+
+    try:
+        params = list(inspect.signature(fn).parameters.values())
+    except (TypeError, ValueError):
+        return False
+    ok = {"str", "bytes", str, bytes}
+    return bool(params) and all(p.kind in (p.POSITIONAL_ONLY, p.POSITIONAL_OR_KEYWORD, p.KEYWORD_ONLY)
+                                and p.annotation in ok for p in params)
+
+
+class _OpaqueMemo:
+    def __init__(self, fn):
+        self.fn = fn
+
+    def __call__(self, *a, **k):
+        raise Unsupported(f"{self.fn.__qualname__} is memoised on arguments whose equality does not determine the "
+                          "result (only str / bytes parameters are read through the cache)")
+
+    def __get__(self, obj, objtype=None):
+        return self
 
 
 class _StatModule:
